@@ -322,8 +322,58 @@ def make_case(script, stop_at, mode, bo, unbind_answer, traffic=()):
     return Case(line, real, sig, fail, inp), extra
 
 
+def dead_peer_case(rng, mode='TRANSCEIVER'):
+    """a bound session whose peer dies the hard way: it stops reading and never sends again while the application keeps
+    queueing large messages, so the Sender ends up suspended in drain().  The keeper must still give the peer up (probe after
+    the idle interval, no answer within socket_timeout), start() must connect again, and stop() must return in bounded time."""
+    from aiosmpplib.state import BindMode
+    from aiosmpplib.protocol import SubmitSm
+    from aiosmpplib.retrytimer import SimpleExponentialBackoff
+    I2, T2 = 2.0, 1.5
+    s = Sim(enquire_link_interval=I2, socket_timeout=T2, bind_mode=getattr(BindMode, mode), retry_timer=SimpleExponentialBackoff(250, 1))
+    fail = None
+    t_dead = round(rng.uniform(0.5, 3.0), 3) + 0.0003
+    t_stop = t_dead + 4 * (I2 + T2) + 0.0007
+    try:
+        dead = {}
+
+        def die():
+            if s.smsc.conns:
+                dead['conn'] = s.smsc.conns[-1]
+                dead['conn'].stall(True)
+                s.smsc.submit_status = lambda seq: None if not dead['conn'].closed else 0
+                s.smsc.enquire = lambda conn, seq: None if conn is dead['conn'] else 0.0
+        s.at(t_dead, die)
+        for k in range(5):
+            s.at(t_dead + 0.01 * (k + 1), s.enqueue, SubmitSm(short_message='z' * 40000, log_id='big%d' % k))
+        s.at(t_stop, s.stop)
+        res = s.run(t_stop + 200.0)
+        ev = list(s.events)
+        connects = [e[0] for e in ev if e[1] == 'connect' and e[3] == 'ok']
+        ended = [e for e in ev if e[1] == 'start-ended']
+        again = [t for t in connects if t > t_dead]
+        if not again or again[0] > t_dead + I2 + T2 + 2 * 0.5 + 1.0 + 0.5:
+            fail = ('the peer stopped reading and answering at %.3f (Sender suspended in drain() on a backlog); no new connection '
+                    'by %.3f (enquire_link_interval %.1f + socket_timeout %.1f + task grace): %s' % (
+                        t_dead, t_dead + I2 + T2 + 2.5, I2, T2, 'none at all' if not again else 'first at %.3f' % again[0]))
+        elif res[0] != 'ended':
+            fail = 'start() still running 200 s after stop()'
+        elif ended and ended[0][2] is not None:
+            fail = 'start() ended with %s' % ended[0][2]
+        elif ended and ended[0][0] - t_stop > I2 + T2 + 2.0:
+            fail = 'start() returned %.3f s after stop()' % (ended[0][0] - t_stop)
+    except Exception as e:      # noqa
+        fail = 'the scenario raised %r' % (e,)
+    finally:
+        s.close()
+    line = '# dead-peer %s %.4f' % (mode, t_dead)
+    return Case(line, line, ('dead-peer', mode), fail, {'op': 'dead-peer', 'mode': mode, 't_dead': t_dead})
+
+
 def generate(rng, tier):
     thorough = tier == 'thorough'
+    for mode in (('TRANSCEIVER', 'TRANSMITTER', 'TRANSCEIVER') if thorough else ('TRANSCEIVER', 'TRANSMITTER')):
+        yield dead_peer_case(rng, mode)
     for _ in range(1500 if thorough else 300):
         c, extra = case_of(rng)
         yield c
@@ -332,6 +382,9 @@ def generate(rng, tier):
 
 
 def replay(inp):
+    if inp.get('op') == 'dead-peer':
+        import random
+        return dead_peer_case(random.Random(1), inp['mode'])
     c, extra = make_case([tuple(o) for o in inp['script']], inp['stop'], inp['mode'], tuple(inp['bo']), inp['unbind_answer'],
                          [tuple(x) for x in inp.get('traffic', [])])
     return c if (c.fail or extra is None) else c
